@@ -619,6 +619,13 @@ class Evaluator:
             raise Unmodelled(f"iteration over the characters of the label {it!r}", node)
         if isinstance(it, _Iter):
             return list(it.items)
+        if isinstance(it, _LazyIter):
+            out = []
+            while True:
+                try:
+                    out.append(it.pull(node))
+                except StopIteration:
+                    return out
         if isinstance(it, type({}.keys())) or isinstance(it, type({}.values())) or isinstance(it, type({}.items())):
             return list(it)
         if isinstance(it, Obj) and (it.kind, "__iter__") in self.method_models:
@@ -948,9 +955,9 @@ class Evaluator:
             if isinstance(l, tuple) and isinstance(r, tuple):
                 return l + r
         if isinstance(op, ast.Mult):
-            if isinstance(l, (list, tuple)) and isinstance(r, int):
+            if isinstance(l, (list, tuple, str)) and isinstance(r, int) and not isinstance(r, bool):
                 return l * r
-            if isinstance(r, (list, tuple)) and isinstance(l, int):
+            if isinstance(r, (list, tuple, str)) and isinstance(l, int) and not isinstance(l, bool):
                 return r * l
         if isinstance(op, ast.Mod) and isinstance(l, str):
             return TOP  # %-formatting of messages
@@ -1156,6 +1163,22 @@ class Evaluator:
         return out
 
     def e_GeneratorExp(self, e, env, fi):
+        if len(e.generators) == 1:
+            g = e.generators[0]
+            src = self.ev(g.iter, env, fi)
+            if isinstance(src, _LazyIter):
+                def gen():
+                    while True:
+                        try:
+                            x = src.pull(g.iter)
+                        except StopIteration:
+                            return
+                        inner = Env({}, env, env.module)
+                        self.assign(g.target, x, inner, fi)
+                        if all(self.truth(self.ev(c, inner, fi), c, inner) for c in g.ifs):
+                            yield self.ev(e.elt, inner, fi)
+
+                return _LazyIter(gen())
         return _Iter(self.e_ListComp(e, env, fi))
 
     def e_SetComp(self, e, env, fi):
@@ -1239,6 +1262,26 @@ class Evaluator:
                         self.events.append(("set-order-consumed", f.path, node))
                 fn_ = getattr(_it, f.path.split(".")[1])
                 return _Iter([tuple(x) if not f.path.endswith("chain") else x for x in fn_(*seqs, **{k: v for k, v in kwargs.items() if isinstance(v, int)})])
+            if f.path == "itertools.count":
+                import itertools as _it
+
+                start = args[0] if args else kwargs.get("start", 0)
+                step = args[1] if len(args) > 1 else kwargs.get("step", 1)
+                if not (isinstance(start, int) and isinstance(step, int)):
+                    raise Unmodelled("itertools.count with non-constant arguments", node)
+                return _LazyIter(_it.count(start, step))
+            if f.path == "itertools.chain.from_iterable":
+                outer = args[0]
+                if outer is TOP or isinstance(outer, Obj):
+                    return TOP
+                flat = []
+                for sub in self.iterate(outer, node):
+                    if sub is TOP or isinstance(sub, Obj):
+                        return TOP
+                    if isinstance(sub, (set, frozenset)):
+                        self.events.append(("set-order-consumed", f.path, node))
+                    flat.extend(self.iterate(sub, node))
+                return _Iter(flat)
             if f.path == "functools.reduce":
                 fn_, seq = args[0], args[1]
                 if seq is TOP:
@@ -1649,6 +1692,13 @@ class Evaluator:
                 if len(args) > 1:
                     return args[1]
                 raise Raised("StopIteration", node)
+            if isinstance(it, _LazyIter):
+                try:
+                    return it.pull(node)
+                except StopIteration:
+                    if len(args) > 1:
+                        return args[1]
+                    raise Raised("StopIteration", node)
             return TOP
         if name == "iter":
             return _Iter(list(self.iterate(args[0], node)))
@@ -1660,6 +1710,18 @@ class Evaluator:
             return TOP
         if name == "id" or name == "hash":
             return TOP
+        if name == "setattr":
+            base, attr, v = args[0], args[1], args[2]
+            if not isinstance(attr, str):
+                raise Unmodelled("setattr with a computed attribute name", node)
+            if isinstance(base, Obj):
+                base.attrs[attr] = v
+                self.events.append(("setattr", base, attr, v, node))
+                return None
+            if base is TOP:
+                self.events.append(("setattr", base, attr, v, node))
+                return None
+            raise Unmodelled("attribute store", node)
         if name == "map":
             return _Iter([self.call(args[0], [x], {}, node) for x in self.iterate(args[1], node)])
         if name == "filter":
@@ -1757,6 +1819,22 @@ class _Iter:
         self.items = list(items)
 
 
+class _LazyIter:
+    """An iterator that may be infinite (itertools.count and generator expressions over it): elements on demand."""
+
+    LIMIT = 256
+
+    def __init__(self, gen):
+        self.gen = gen
+        self.pulled = 0
+
+    def pull(self, node):
+        self.pulled += 1
+        if self.pulled > self.LIMIT:
+            raise Unmodelled(f"more than {self.LIMIT} elements drawn from an unbounded iterator", node)
+        return next(self.gen)
+
+
 class Env:
     def __init__(self, vars, parent, module):
         self.vars = dict(vars)
@@ -1786,7 +1864,7 @@ class Env:
 BUILTINS = {
     "len", "list", "tuple", "dict", "set", "frozenset", "slice", "range", "zip", "enumerate", "reversed", "sorted", "max", "min",
     "sum", "abs", "any", "all", "isinstance", "int", "float", "bool", "str", "repr", "print", "type", "next", "iter", "hasattr",
-    "getattr", "id", "hash", "map", "filter",
+    "getattr", "setattr", "id", "hash", "map", "filter",
 }
 
 
